@@ -28,6 +28,16 @@ LEAVES = [
     # ... and again after the wait: the event was cleared (another close shut the engine down) or the instance is done
     ("Shutdown", "wait_for_start_raises_after", "_core.py", "Zeroconf.async_wait_for_start", ("if", "running_event.is_set()", 0),
      [P("self.engine.running_event.is_set()", "is_set", "bool"), P("self.done", "done", "bool")], "bool", {}),
+    # ---- what the close path cancels / closes / leaves alone (statement-level facts, as boolean constants)
+    ("Shutdown", "engine_close_cancels_cleanup", "_engine.py", "AsyncEngine._async_close", ("has_call", "self._cleanup_timer.cancel"), [], "bool", {}),
+    ("Shutdown", "shutdown_closes_transports", "_engine.py", "AsyncEngine._async_shutdown", ("has_call", "transport.close"), [], "bool", {}),
+    ("Shutdown", "shutdown_aborts_transports", "_engine.py", "AsyncEngine._async_shutdown", ("has_call", "transport.abort"), [], "bool", {}),
+    ("Shutdown", "close_cancels_tracked_browsers", "asyncio.py", "AsyncZeroconf.async_close", ("has_call", "async_remove_all_service_listeners"), [], "bool", {}),
+    ("Shutdown", "browser_cancel_stops_scheduler", "_services/browser.py", "_ServiceBrowserBase._async_cancel", ("has_call", "query_scheduler.stop"), [], "bool", {}),
+    ("Shutdown", "browser_cancel_removes_listener", "_services/browser.py", "_ServiceBrowserBase._async_cancel", ("has_call", "async_remove_listener"), [], "bool", {}),
+    ("Shutdown", "scheduler_stop_cancels_timer", "_services/browser.py", "QueryScheduler.stop", ("has_call", "_next_run.cancel"), [], "bool", {}),
+    # transport.close() schedules protocol.connection_lost: it must not touch `_deferred` / `_timers` (it does nothing at all)
+    ("Shutdown", "connection_lost_is_noop", "_listener.py", "AsyncListener.connection_lost", ("body_empty",), [], "bool", {}),
     # Zeroconf.close(): the goodbyes are skipped only when the caller is on the instance's *own* loop
     ("Shutdown", "sync_close_skips_goodbyes", "_core.py", "Zeroconf.close", ("if", "get_running_loop()", 0),
      [P("self.loop == get_running_loop()", "on_own_loop", "bool")], "bool", {}),
